@@ -47,6 +47,7 @@ func (h *Handler) handleDecline(p packet.DHCP4, options packet.DHCP4Options) (d 
 	lease.State = StateFree
 	lease.Addr.IP = netip.Addr{}
 	lease.IPOffer = netip.Addr{}
+	h.saveConfig(h.filename) // the lease file must not resurrect the declined lease after a restart
 	return nil
 }
 
@@ -74,5 +75,6 @@ func (h *Handler) handleRelease(p packet.DHCP4, options packet.DHCP4Options) (d 
 	lease.State = StateFree
 	lease.Addr.IP = netip.Addr{}
 	lease.IPOffer = netip.Addr{}
+	h.saveConfig(h.filename) // the lease file must not resurrect the released lease after a restart
 	return nil
 }
